@@ -22,7 +22,7 @@ ASSUMPTIONS = [
     "the library decoder (vc2_conformance.decoder.parse_stream) decides which inputs are conformant and provides the expected pictures",
     "resource bound as C02; inputs above it are set aside",
 ]
-PATTERNS = ("picture_%d.raw", "out/p%03d.raw", "noext_%d")
+PATTERNS = ("picture_%d.raw", "out/p%03d.raw", "noext_%d", "take.1/pic_%d", "./rel_%d", "a.b/c.d_%02d.raw", "out/../up_%d")
 
 
 def run_cli(data, workdir, pattern, quiet=True):
@@ -37,6 +37,8 @@ def run_cli(data, workdir, pattern, quiet=True):
         else:
             os.remove(p)
     os.mkdir(os.path.join(workdir, "out"))
+    os.mkdir(os.path.join(workdir, "take.1"))
+    os.mkdir(os.path.join(workdir, "a.b"))
     path = os.path.join(workdir, "in.vc2")
     with open(path, "wb") as f:
         f.write(data)
@@ -81,7 +83,10 @@ def check_input(data, workdir, pattern="picture_%d.raw", quiet=True):
     if v.kind == "accept":
         if rc != 0:
             return "conformant", ["conformant stream: exit status %r (stdout: %s)" % (rc, stdout[-200:])]
-        stem = os.path.splitext(pattern)[0]
+        # expected names: the pattern with only its *final component's* extension replaced
+        head, tail = os.path.split(pattern)
+        tail_stem = tail[: tail.rindex(".")] if "." in tail else tail
+        stem = os.path.normpath(os.path.join(head, tail_stem))
         want = []
         for i in range(len(v.pictures)):
             base = stem % (i,)
